@@ -1,5 +1,5 @@
 # replay of a bounded stand-in violation (C09/C10): re-run native/c09_engine.py
 import sys
-print('C10: Abs(q)**2 of a measured parameter with outcome (0.3+0.4j) evaluates to (-0.07000000000000003+0.24j), the function of the outcome is (0.25+0j)')
+print("gaussian [measure q2 and q1, Del q0, feed q1's outcome to q2; successor deletes the measured mode afterwards]: raised RuntimeError: Register mismatch: program 1, 'None'. (after [])")
 print('REPLAY-VIOLATION')
 sys.exit(1)
